@@ -25,6 +25,7 @@ import (
 	"go/types"
 	"os"
 	"path/filepath"
+	"regexp"
 	"sort"
 	"strings"
 
@@ -39,22 +40,23 @@ type edit struct {
 
 type stats struct {
 	R1, R2, R2Skipped, R3, R4, R5, R6, R6Skipped, R7, R8 int
-	Files                                            int
-	R2SkippedAt                                      []string
-	R6SkippedAt                                      []string
+	Files                                                int
+	R2SkippedAt                                          []string
+	R6SkippedAt                                          []string
 }
 
 var (
-	st       stats
-	siteN    int
-	sites    []string
-	modPath  string
-	noR2     bool
-	noR4     bool
-	noR7     bool
-	noR8     bool
-	r8All    bool
-	yieldPkg = map[string]bool{}
+	st        stats
+	siteN     int
+	sites     []string
+	modPath   string
+	noR2      bool
+	noR4      bool
+	noR7      bool
+	noR8      bool
+	r8All     bool
+	labelCopy int
+	yieldPkg  = map[string]bool{}
 )
 
 func fail(format string, a ...any) {
@@ -697,11 +699,32 @@ func rewriteSelects(name string) error {
 		for _, p := range ps {
 			all += p.head + p.body
 		}
+		// labels defined inside the select would be defined once per copy: every
+		// copy of a case body gets its own names
+		var labels []string
+		ast.Inspect(sel, func(n ast.Node) bool {
+			if ls, ok := n.(*ast.LabeledStmt); ok {
+				labels = append(labels, ls.Label.Name)
+			}
+			return true
+		})
+		relabel := func(text string) string {
+			if len(labels) == 0 {
+				return text
+			}
+			labelCopy++
+			for _, l := range labels {
+				nl := fmt.Sprintf("%s_r7c%d", l, labelCopy)
+				text = regexp.MustCompile(`(?m)^(\s*)`+regexp.QuoteMeta(l)+`:`).ReplaceAllString(text, "${1}"+nl+":")
+				text = regexp.MustCompile(`\b(break|continue|goto)(\s+)`+regexp.QuoteMeta(l)+`\b`).ReplaceAllString(text, "${1}${2}"+nl)
+			}
+			return text
+		}
 		chain := func(order []int) string {
-			out := "select {\n" + all + "}\n"
+			out := "select {\n" + relabel(all) + "}\n"
 			for k := len(order) - 1; k >= 0; k-- {
 				p := ps[order[k]]
-				out = "select {\n" + p.head + p.body + "default:\n" + out + "}\n"
+				out = "select {\n" + p.head + relabel(p.body) + "default:\n" + out + "}\n"
 			}
 			return out
 		}
